@@ -15,11 +15,13 @@ CLAIM = dict(
          "urlencoded limited read: the buffer never exceeds max_form_memory_size in any reachable configuration, a run that "
          "returns never counted more than max_form_parts parts, a returned non-file field never exceeds the limit however it is "
          "split over Data events, the limited urlencoded read returns at most the limit, and limits are pure guards (a run that "
-         "succeeds under limits is the unlimited run). The three limit conditions are regenerated from the source (T2) and proved "
+         "succeeds under limits is the unlimited run); a declared length above max_content_length is refused before a byte is read "
+         "and a server-terminated stream is capped at the maximum under every read pattern (corollaries of C09). The three limit conditions are regenerated from the source (T2) and proved "
          "equal to the model's on every run; the model is compared with the real decoder/form parser on bodies around each limit.",
     note="Trusted: Coq kernel; translator (T2 conditions, request-level defaults); extraction + driver; the decoder model of C01 "
          "(validated differentially); part kind (field/file) is an input of the fold model computed by werkzeug's header parser; "
-         "LimitedStream / get_input_stream (max_content_length) are C09's models, exercised here end to end only.",
+         "LimitedStream / get_input_stream (max_content_length) are C09's models (regenerated table + validated stream model); the "
+         "C10 theorems on them are corollaries and the clause is also exercised end to end.",
     design="6/C10")
 
 
@@ -553,12 +555,13 @@ def _has_bad_header(b: str) -> bool:
 def main(chk: Check) -> None:
     try:
         gen()
-        from . import c01
+        from . import c01, c09
         c01.gen()
+        c09.gen()  # the max_content_length theorems are corollaries of C09's regenerated get_input_stream table
     except px.Unsupported as e:
         chk.broken("translator", "C10/Gen.v", str(e))
     chk.forbidden_scan()
-    if chk.coq_make(["C10/Proofs.vo", "C10/Extract.vo"]):
+    if chk.coq_make(["C10/Proofs.vo", "C10/Declared.vo", "C10/Extract.vo"]):
         chk.audit_props("C10/Props.v")
     else:
         chk.cov["obligations"] += 1
@@ -567,7 +570,9 @@ def main(chk: Check) -> None:
         "_parse_urlencoded; shape of the limited read loop pinned textually; request-level defaults) + tools/pyextract.py",
         "extraction ExtrOcamlBasic + tools/conv.ml + coq/C10/driver.ml",
         "decoder model coq/C01/Model.v (validated differentially by C01 and here); part kind supplied by werkzeug's header parser",
-        "wsgi.LimitedStream / get_input_stream are not modelled here (C09); max_content_length is exercised end to end only",
+        "max_content_length: get_input_stream decision table and LimitedStream model are C09's (coq/C09/Gen.v regenerated here too, "
+        "coq/C09/Model.v validated differentially by ./check C09); the C10 theorems about it are corollaries, and the clause is "
+        "also exercised end to end through Request and parse_form_data",
     ]
     run(chk)
     chk.finish(rule="multipart bodies with field/file sizes around each limit, many small parts, huge header blocks, bodies without "
